@@ -6,6 +6,7 @@ import BiscuitModel.Model.Versions
 import BiscuitModel.Model.Params
 import BiscuitModel.Model.Keys
 import BiscuitModel.Model.Untrusted
+import BiscuitModel.Model.CApi
 open Lean Biscuit Biscuit.Codec
 
 def runExpr (j : Json) : P Json := do
@@ -751,6 +752,92 @@ def runMacros (j : Json) : P Json := do
 
 end MacrosOp
 
+/-! ### capi (C19) -/
+section CApiOp
+open Biscuit.CApi
+
+def outcomeJ : Outcome → Json
+  | .value => "value"
+  | .error => "error"
+  | .abort => "abort"
+
+def idxOf (j : Json) (k : String) : Option Nat :=
+  match fieldOpt j k with
+  | some (.num n) => if n.mantissa < 0 then none else some n.mantissa.toNat
+  | _ => none
+
+/-- the handle and buffer protocol over the operations of a case; what depends on the contents of
+    a token or on the Datalog engine is left open (`any`) -/
+def runCApi (j : Json) : P Json := do
+  let mut kpAlg : Array (Option Nat) := #[]       -- algorithm of every key-pair handle, none = null handle
+  let mut pkAlg : Array (Option Nat) := #[]
+  let mut bbs : Array (Handle Unit) := #[]
+  let mut blks : Array (Handle Unit) := #[]
+  let mut azbs : Array (Handle Unit) := #[]
+  let mut tokNext : Array (Option Nat) := #[]    -- algorithm of the key that would sign the seal, when known
+  let mut outs : Array Json := #[]
+  for op in ← getArr (← field j "ops") do
+    let name ← (← field op "op").getStr?
+    let anyJ : Json := "any"
+    match name with
+    | "kp_new" =>
+      let seed ← (← field op "seed").getStr?
+      let alg ← getNat (← field op "alg")
+      if seed.length == 64 then
+        kpAlg := kpAlg.push (some alg); outs := outs.push (outcomeJ .value)
+      else
+        kpAlg := kpAlg.push none; outs := outs.push (outcomeJ .error)
+    | "kp_public" =>
+      match (idxOf op "kp").bind (fun i => (kpAlg[i]?).join) with
+      | some a => pkAlg := pkAlg.push (some a); outs := outs.push (outcomeJ .value)
+      | none => pkAlg := pkAlg.push none; outs := outs.push (outcomeJ .error)
+    | "pk_serialize" =>
+      match (idxOf op "pk").bind (fun i => (pkAlg[i]?).join) with
+      | some a =>
+        let keyLen := if a == 0 then 32 else 33
+        outs := outs.push (outcomeJ (copyInto keyBuffer (List.replicate keyLen 0)).1)
+      | none => outs := outs.push (outcomeJ .error)
+    | "bb_new" => bbs := bbs.push ⟨some ()⟩; outs := outs.push (outcomeJ .value)
+    | "blk_new" => blks := blks.push ⟨some ()⟩; outs := outs.push (outcomeJ .value)
+    | "azb_new" => azbs := azbs.push ⟨some ()⟩; outs := outs.push (outcomeJ .value)
+    | "bb_add" | "blk_add" | "azb_add" =>
+      let valid := match fieldOpt op "valid" with | some (.bool b) => b | _ => true
+      let f : Unit → Except Unit Unit := fun _ => if valid then .ok () else .error ()
+      let tbl := if name == "bb_add" then bbs else if name == "blk_add" then blks else azbs
+      let h : Option (Handle Unit) := (idxOf op "b").bind (fun i => tbl[i]?)
+      let (h', o) := callAdd h f
+      match idxOf op "b", h' with
+      | some i, some h' =>
+        if name == "bb_add" then bbs := bbs.set! i h'
+        else if name == "blk_add" then blks := blks.set! i h'
+        else azbs := azbs.set! i h'
+      | _, _ => pure ()
+      outs := outs.push (outcomeJ o)
+    | "bb_build" =>
+      let seed ← (← field op "seed").getStr?
+      let okArgs := ((idxOf op "b").bind (fun i => bbs[i]?)).isSome
+        && ((idxOf op "kp").bind (fun i => (kpAlg[i]?).join)).isSome && seed.length == 64
+      tokNext := tokNext.push (if okArgs then some 0 else none)
+      outs := outs.push (if okArgs then anyJ else outcomeJ .error)
+    | "tok_append" =>
+      tokNext := tokNext.push ((idxOf op "kp").bind (fun i => (kpAlg[i]?).join))
+      outs := outs.push anyJ
+    | "tok_from" =>
+      tokNext := tokNext.push none
+      outs := outs.push anyJ
+    | "tok_serialize" | "tok_serialize_sealed" =>
+      -- whatever the token, the announced size is the number of bytes written (or both are 0)
+      outs := outs.push (Json.mkObj [("written_is_announced", Json.bool true)])
+    | "tok_sizes" =>
+      -- `sealed_size_exceeds_unsealed`: a 32-byte ed25519 key gives way to a 64-byte ed25519 signature
+      match (idxOf op "t").bind (fun i => (tokNext[i]?).join) with
+      | some 0 => outs := outs.push (Json.mkObj [("sealed_minus_unsealed", Json.num 32)])
+      | _ => outs := outs.push anyJ
+    | _ => outs := outs.push anyJ
+  pure (Json.mkObj [("ops", Json.arr outs)])
+
+end CApiOp
+
 def handle (line : String) : String :=
   match Json.parse line with
   | .error e => (Json.mkObj [("driver_error", s!"parse: {e}")]).compress
@@ -776,6 +863,7 @@ def handle (line : String) : String :=
       | "keys" => runKeys j
       | "untrusted" => runUntrusted j
       | "macros" => runMacros j
+      | "capi" => runCApi j
       | _ => throw s!"unknown op {op}"
     match r with
     | .ok o => o.compress
